@@ -23,6 +23,7 @@ import PhQVerif.Generated.Obl_C02class
 import PhQVerif.Generated.Obl_C02pairs32
 import PhQVerif.Generated.Obl_C02pairs64
 import PhQVerif.Generated.Obl_C02pairs80
+import PhQVerif.Generated.Obl_NarrowU
 
 namespace PhQVerif.Props.C02
 open PhQVerif Generated
@@ -84,6 +85,17 @@ theorem class_entry_points_agree :
     ∀ e ∈ quantityEntries, ∀ L : Libm, ClassUnitSpec L classes (kernelsOf e.fm) e := by
   intro e he L
   exact checkClassUnit_sound L (List.all_eq_true.mp Obl.C02class e he)
+
+/-- **C02 (conversions in the type's own precision).** No operation of any conversion entry point — the
+free functions on every container form, the dispatch-table routines, the compile-time kernels — is carried
+out with fewer significand bits than the numeric type it is instantiated at. (Constants may be written
+in any precision; their accuracy is C01.) -/
+theorem conversions_keep_precision :
+    ∀ e ∈ unitEntries, ∀ ex ∈ e.tree.exprs, e.needP ≤ ex.minP := by
+  intro e he ex hex
+  have h : Chk.NoNarrowing e = true := List.all_eq_true.mp Obl.NarrowU e he
+  simp only [Chk.NoNarrowing, checkNoNarrowing, List.all_eq_true, decide_eq_true_eq] at h
+  exact h ex hex
 
 /-- **C02 (a unit converted to the standard unit and back / the standard unit itself).** In the
 standard unit both run-time steps are skipped: `Convert(x, std, std)` is `x` itself, bit for bit, so
